@@ -246,7 +246,7 @@ def run(rng, res, tier, shard, nshards):
     reach.add('MalCompiler.compile', MalCompiler.compile)
     for fn in ('visitMal', 'visitExpr', 'visitParts', 'visitPart', '_resolve_part_ID_type', 'visitTtcexpr',
                'visitTtcterm', 'visitTtcfact', 'visitAssociation', '_post_process_multitudes'):
-        reach.add('malVisitor.' + fn, getattr(malVisitor, fn))
+        reach.add('malVisitor.' + fn, getattr(malVisitor, fn, None))
     reach.start()
     # reference-compiler output: both shipped coreLang specs, every shard
     for variant in ('core', 'union'):
